@@ -676,8 +676,16 @@ func v5Sensitive(r v5Res) bool {
 
 func (r v5Res) coq() string {
 	var as []string
-	for _, s := range r.sends {
-		as = append(as, fmt.Sprintf("(%d, %d)", s.at, s.n))
+	for i, s := range r.sends {
+		at := s.at
+		if (r.scn.kind == "late-subroute" || r.scn.kind == "nonterm-read-undecided") && i == len(r.sends)-1 && r.hread == "ok" {
+			// the byte the blocked handler was waiting for: what matters for what follows is when the handler GOT it
+			// (under load the client's send and the handler's wake-up can be far apart)
+			if got := r.start + int64(r.hreadAt); got > at {
+				at = got
+			}
+		}
+		as = append(as, fmt.Sprintf("(%d, %d)", at, s.n))
 	}
 	kind := map[string]string{"undecided": "KUndecided", "match-read": "KMatchRead", "empty-fb-read": "KEmptyFbRead", "nonterm-undecided": "KNonTermUndecided", "nonterm-read-undecided": "KNonTermReadUndecided", "late-subroute": "KLateSubroute"}[r.scn.kind]
 	tr := map[string]string{"pipe": "TPipe", "tcp": "TTcp", "udp": "TUdp", "udp-real": "TUdp"}[r.scn.transport]
